@@ -23,14 +23,31 @@ var specs = []CheckSpec{
 	{
 		ID: "C03", Pkg: "txtar",
 		Harnesses: []HarnessSpec{
-			{Fn: "VerifC03Total", Quick: map[string]int{"N": 9}, Thorough: map[string]int{"N": 12}, Witness: []string{"parsed", "one-file"}, Native: true},
-			{Fn: "VerifC03Ref", Quick: map[string]int{"N": 9}, Thorough: map[string]int{"N": 12}, Witness: []string{"parsed", "ref-one-file"}, Native: true},
+			{Fn: "VerifC03Total", Quick: map[string]int{"N": 9}, Thorough: map[string]int{"N": 11}, Witness: []string{"parsed", "one-file"}, Native: true},
+			{Fn: "VerifC03Ref", Quick: map[string]int{"N": 9}, Thorough: map[string]int{"N": 11}, Witness: []string{"parsed", "ref-one-file"}, Native: true},
+			{Fn: "VerifC03WellFormed", Quick: map[string]int{"K": 2, "L": 2, "NL": 1}, Thorough: map[string]int{"K": 2, "L": 3, "NL": 2}, Witness: []string{"two-files"}, Native: true},
+			{Fn: "VerifC03WellFormedBig", Quick: map[string]int{"L": 8}, Thorough: map[string]int{"L": 9}, Witness: []string{"body-long-enough-for-marker"}, Native: true},
+			{Fn: "VerifC03CRLF", Quick: map[string]int{"N": 9}, Thorough: map[string]int{"N": 11}, Witness: []string{"marker-line-chosen", "eof-cr", "eof-crlf"}, Native: true},
 		},
 		Bounds: map[string]string{
-			"quick":    "all byte strings of length <= 9 (every byte value); archives of up to 1 file reachable within that length",
-			"thorough": "all byte strings of length <= 12",
+			"quick":    "all byte strings of length <= 9 (every byte value); well-formed archives with <= 2 files (bodies <= 2 bytes, 1-byte names) and single-file archives with bodies <= 8 bytes (ASCII)",
+			"thorough": "all byte strings of length <= 11; well-formed archives with <= 2 files, bodies <= 3 bytes, names <= 2 bytes, and single-file archives with bodies <= 9 bytes",
 		},
 		Assumptions: commonAssumptions,
 		Outside:     []string{"inputs longer than the bound", "ParseFile's os.ReadFile"},
+	},
+	{
+		ID: "C14", Pkg: "txtar",
+		Harnesses: []HarnessSpec{
+			{Fn: "VerifC14NeedsQuote", Quick: map[string]int{"N": 9}, Thorough: map[string]int{"N": 11}, Witness: []string{"needs-quote", "body-changes-parse"}, Native: true},
+			{Fn: "VerifC14Quote", Quick: map[string]int{"N": 5}, Thorough: map[string]int{"N": 7}, Witness: []string{"quoted", "quote-refused"}, Native: true},
+			{Fn: "VerifC14QuoteMarker", Quick: map[string]int{"N": 9}, Thorough: map[string]int{"N": 10}, Witness: []string{"quoted-a-marker"}, Native: true},
+		},
+		Bounds: map[string]string{
+			"quick":    "NeedsQuote: all bodies of <= 9 bytes; Quote/Unquote: all bodies of <= 5 bytes, and all newline-terminated ASCII bodies of <= 9 bytes that contain a marker line",
+			"thorough": "NeedsQuote: all bodies of <= 11 bytes; Quote/Unquote: <= 7 bytes; marker bodies <= 10 bytes",
+		},
+		Assumptions: commonAssumptions,
+		Outside:     []string{"bodies longer than the bound"},
 	},
 }
